@@ -190,6 +190,16 @@ fn main_check(ctx: &Ctx) -> Outcome {
     let nchar = if quick { 2 } else { 3 };
     let str_tokens: Vec<String> =
         strings_upto(chars.len(), nchar).filter(|c| !c.is_empty()).map(|c| c.iter().map(|&i| chars[i].as_str()).collect()).collect();
+    // ... and every string of <= 2 characters over the full ASCII range (a character the code singles out
+    // that the class alphabet does not know of still gets exercised at chunk start, middle and end)
+    let str_tokens: Vec<String> = {
+        let full: Vec<String> = (0u8..0x80).map(|b| (b as char).to_string()).chain(['é', '\u{9c}', '世'].iter().map(|c| c.to_string())).collect();
+        let mut v = str_tokens;
+        v.extend(strings_upto(full.len(), 2).filter(|c| !c.is_empty()).map(|c| c.iter().map(|&i| full[i].as_str()).collect::<String>()));
+        v.sort();
+        v.dedup();
+        v
+    };
     let sys_str = StripStrSys { tokens: str_tokens };
     let rep = bfs::explore(&sys_str, &Limits::depth(32));
     all_fix &= rep.fixpoint();
